@@ -17,7 +17,7 @@ EXPLANATION = (
     "bytes by finite-domain evaluation of the IR.  Required: literal bytes are a subset of the decoder's "
     "literal class and decode back to their symbol; the three classes are disjoint on the encoder alphabet; "
     "digits, '-', ',' and '.' fall in the match class only; 0xFF (the pack separator) is not in the alphabet; "
-    "the encoder's '!'-rewrite scan range contains no non-literal encoder byte.")
+    "the encoder's '!'-rewrite scan range contains no non-literal encoder byte.  (ROLL) the rolling key code of the scanning loops is refreshed on every path through an iteration; (PRED/BACK/EMPTY) as described in DESIGN 11.5.")
 UNDECIDED = ("everything else in C09: evolution of pred_pos, match-to-end elision, backward extension, hash matching; "
              "i.e. that decode(encode(t)) == t for all (reference, target, min match)")
 
